@@ -49,7 +49,7 @@ func init() {
 			"the page is parsed with the HTML5 algorithm: DOM skeleton equal to the benign page of the same build, one POST form whose action is the flow's endpoint (as URL), message field decoding to exactly the document, RelayState present iff given and equal modulo HTML newline normalisation; the submitted document is re-verified at the IdP; distinct = shape hash (builder sequence, relay classes, signed, outcome)",
 		Directed:    c16Directed,
 		Run:         c16Run,
-		MustHit:     []string{"builder=BuildAuthBodyPost", "builder=BuildAuthBodyPostFromDocument", "builder=BuildLogoutBodyPostFromDocument", "builder=BuildLogoutResponseBodyPostFromDocument", "relay_absent", "relay_hostile", "relay_absent_then_present", "relay_present_then_absent", "signed", "unsigned", "endpoint_reassigned_between_document_and_form"},
+		MustHit:     []string{"builder=BuildAuthBodyPost", "builder=BuildAuthBodyPostFromDocument", "builder=BuildLogoutBodyPostFromDocument", "builder=BuildLogoutResponseBodyPostFromDocument", "relay_absent", "relay_hostile", "relay_absent_then_present", "relay_present_then_absent", "signed", "unsigned", "endpoint_reassigned_between_document_and_form", "unsigned_document_with_request_signing_on"},
 		RandomRuns:  map[string]int{"quick": 5000, "thorough": 50000},
 		Assumptions: []string{"NUL and invalid UTF-8 are excluded from relay states (HTML cannot carry them); CR and CRLF compare equal to LF, as the HTML input-stream preprocessing prescribes"},
 	})
@@ -118,6 +118,12 @@ func c16Run(r *core.Run) {
 			r.Probe("signed")
 		} else {
 			r.Probe("unsigned")
+		}
+		// the application hands over an unsigned document although request signing is switched on in the
+		// configuration: the form carries the document it was given
+		c16SignOnAnyway = !signed && builder == "BuildAuthBodyPostFromDocument" && t.Int(2, "c16.signonanyway") == 1
+		if c16SignOnAnyway {
+			r.Probe("unsigned_document_with_request_signing_on")
 		}
 		c16Reconf = plans[call].reconf
 		if c16Reconf && builder != "BuildAuthBodyPost" {
@@ -224,6 +230,9 @@ func c16Run(r *core.Run) {
 // c16Reconf: see plan.reconf (set per call by c16Run).
 var c16Reconf bool
 
+// c16SignOnAnyway: see c16Run (set per call).
+var c16SignOnAnyway bool
+
 // c16Moved is the endpoint the application switches to (IdP metadata refresh).
 func c16Moved(u string) string {
 	return strings.Replace(u, "https://idp.example", "https://idp-new.example", 1)
@@ -299,6 +308,9 @@ func c16Produce(r *core.Run, o *Out, builder, relay string, signed bool) (page, 
 				defer func() { sp.IdentityProviderSSOURL = o.Cfg.IdPSSOURL }()
 			}
 			doc, _ = d.WriteToBytes() // the document as supplied
+			if c16SignOnAnyway {
+				sp.SignAuthnRequests = true
+			}
 			page, err = sp.BuildAuthBodyPostFromDocument(relay, d)
 		case "BuildLogoutBodyPostFromDocument":
 			kind, endpoint = "LogoutRequest", o.Cfg.IdPSLOURL
